@@ -88,6 +88,10 @@ def shape_calls(sh):
         st = yield_(_expr(sh["rhs"]), time={"t": V("<t>"), "t_plus_dt": S(V("<t>"), V("<dt>")), "var": V("m")}[sh["time"]])
     elif k == "fail":
         st = {"op": "fail"}
+    elif k == "raise":
+        st = {"op": "raise", "kind": "VerifError", "msg": "m"}
+    elif k == "restart":
+        st = {"op": "restart"}
     else:
         st = {"op": "switch", "to": "p1"}
     return ([if_(guard)] if guard else []) + [st] + ([{"op": "endif"}] if guard else [])
